@@ -79,7 +79,7 @@ def concs(n, rnd, dask_ok=True):
     include a zero / tiny centre frequency and a GHz-unit centre with sub-kHz channels."""
     rates = [(1, u.mHz), (1, u.Hz), (1, u.kHz), (1, u.MHz), (800 / 3, u.MHz), (2, u.GHz), (32, u.MHz), (0.5, u.Hz)]
     cfs = [(0, u.Hz), (1.4, u.GHz), (0.3, u.kHz), (327, u.MHz), (7, u.GHz), (150.5, u.MHz), (-2, u.MHz)]
-    cbws = [(100, u.Hz), (0.5, u.MHz), (125, u.kHz), (1, u.Hz), (0.2, u.GHz)]
+    cbws = [(100, u.Hz), (0.1, u.MHz), (125, u.kHz), (1, u.Hz), (0.2, u.GHz)]    # 0.1 / 0.2: not representable in binary
     off = rnd.randrange(1000)
     out = []
     for i in range(n):
@@ -349,8 +349,16 @@ def alpha_meta(s, conc, root_epoch_days=None):
     return r
 
 
+class LazyResultFailed(Exception):
+    """Computing a Dask-backed result that the library returned raised: the graph the code under test
+    built is broken (no pulsarbat frame is on the stack at that point, so it is marked here)."""
+
+
 def materialise(s):
     d = s.data
     if isinstance(d, da.Array):
-        d = d.compute(scheduler="synchronous")
+        try:
+            d = d.compute(scheduler="synchronous")
+        except Exception as e:  # noqa
+            raise LazyResultFailed("computing the lazy result %r raised %r" % (s, e)) from e
     return np.asarray(d)
